@@ -26,7 +26,8 @@ CHECKS = {
             "A C driver linked against the repo's specpart.c enumerates every assignment of 2/3/4-value alphabets to every cell of every "
             "grid shape up to 12 cells (quick; 14 ternary / 18 binary thorough), complete structured families up to 8x8, 8 level "
             "counts and every circular shift of the direction axis; an independent flood-fill oracle checks labels>=1, one basin per "
-            "regional maximum, connectivity on the cylinder and shift-equivariance. The same product runs through the python wrapper.",
+            "regional maximum, connectivity on the cylinder and shift-equivariance. The same product runs through the python wrapper, "
+            "there also with Fortran-ordered, strided and negative-stride float32 inputs.",
             "Discretisation ties are don't-care (skipped, counted). Values outside the alphabets / larger grids only via structured "
             "families. Known finding: value range < 1e-9 is treated as constant.",
             "3 C04"),
@@ -34,14 +35,16 @@ CHECKS = {
             "Every ternary spectrum on 2x4 (and 2x5/1x8 with rotating configurations; 3x4/2x6 thorough), complete 2-/3-bump families on "
             "4x6/5x8, x PTM1/2/3 x ihmax x requested count (below/equal/above detected) x wind/depth/agefac/wscut menus (full 324-config "
             "product on a structured 3x4 family), at numpy level and through the accessor on (time)/(time,site)/(lat,lon) layouts, "
-            "numpy- and dask-backed, smoothing on/off: bin-is-input-or-zero, disjointness, exact sum, count, wind-sea rule, Hs order.",
+            "numpy- and dask-backed, smoothing on/off, and back-to-back call sequences over every ordered pair of 6 equal-shape grids with "
+            "different coordinates: bin-is-input-or-zero, disjointness, exact sum, count, wind-sea rule, Hs order.",
             "The label map is taken from specpart.partition (C04's subject) and celerity from the library (C01's subject). Classification "
             "clauses are don't-care within 1e-9 of a threshold.",
             "3 C03"),
     "C05": ("exploration", "bex", "exhaustive metamorphic exploration of storage transformations (dimension order x layout x dtype x stored direction sequence)",
             "Each of ~45 operations (all statistics, smooth, interp, rotate, split, limited stats, scale_by_hs, ptm1..5, bbox) is run on "
             "every transformed copy of a 4-D dataset and a 2-D array (quick: every factor value alone and every pair of factor values; "
-            "thorough: the full 24x4x2x16 product) and compared, after re-alignment by labels, with the canonical result.",
+            "thorough: the full 24x4x2x16 product), plus 2-D arrays with 2,3,4,5,6,12 directions in every rotation and orientation, and "
+            "compared, after re-alignment by labels, with the canonical result.",
             "One base dataset per seed (float32-exact, pairwise distinct values). Descending directions are excused for the watershed "
             "methods as the statement allows.",
             "3 C05"),
@@ -85,12 +88,13 @@ CHECKS = {
             "celerity() is taken from the library (C01). Cases within 1e-9 of a float boundary are don't-care unless equality is exact.",
             "3 C09"),
     "C18": ("model_checking", "hist", "exhaustive operation-history exploration (all sequences to depth 3/4) on live objects vs fresh-interpreter references",
-            "Every sequence up to depth 3 (4 thorough) over a 14-operation alphabet (accessor calls, in-place edits of efth/dir/freq, "
-            "watershed calls on other shapes and objects, a reader call) is executed on freshly built objects in a freshly forked child; a "
-            "28-observation battery (Dataset accessor, efth accessor, DataArray accessor, values and attrs) is compared with the battery "
-            "computed in a fresh interpreter on a fresh object of the same contents (16 content states).",
-            "Quick skips depth-3 histories without any edit. Hidden state reachable only through operations outside the alphabet is not "
-            "explored.",
+            "Every sequence up to depth 2 over a 20-operation alphabet (accessor calls incl. one that exercises every observed function, "
+            "in-place edits of efth/dir/freq by item assignment, through .coords and by writing into .values, watershed calls on other "
+            "shapes incl. the transposed shape of the observed spectra, another object, a reader call) plus depth 3 over a reduced "
+            "13-operation alphabet with at least one edit (thorough: full alphabet to depth 3, reduced to depth 4) is executed on freshly "
+            "built objects in a freshly forked child; an observation battery (Dataset accessor, efth accessor, DataArray accessor, values "
+            "and attrs) is compared with the battery computed in a fresh interpreter on a fresh object of the same contents (32 content states).",
+            "Hidden state reachable only through operations outside the alphabet is not explored.",
             "3 C18"),
     "C10": ("exploration", "bex", "bounded exhaustive enumeration of spectra x scale factors x relabelling angles, metamorphic relations and bounds",
             "Every non-degenerate assignment of a 3-value alphabet on 2x2..3x3/2x4 grids and complete structured/bump families on 4x6 and "
@@ -109,17 +113,17 @@ CHECKS = {
             "accepts either reading.",
             "3 C14"),
     "C17": ("exploration", "hist", "exhaustive enumeration of operations and ordered operation pairs x input variants with deep before/after snapshots",
-            "The operation alphabet is built by introspection (98 operations: every public SpecArray/SpecDataset/Partition method with "
+            "The operation alphabet is built by introspection (106 operations: every public SpecArray/SpecDataset/Partition method with "
             "argument menus, selections, writers, construct helpers, free functions); every operation alone on numpy-backed, view-into-"
-            "caller-buffer, read-only and dask-backed inputs, and every ordered pair on the same objects; a deep bitwise snapshot of the "
+            "caller-buffer, read-only, dask-backed and float32-with-NaN inputs (queries as lists and as arrays in both longitude conventions, native WW3 / SWAN datasets), and every ordered pair on the same objects; a deep bitwise snapshot of the "
             "dataset, wind/depth arrays, coordinate arrays, owning buffers, query lists and keyword dicts must be unchanged.",
             "plot, to_orcaflex and to_zarr are skipped; from_<model> readers are covered by C12's native-unmodified clause.",
             "3 C17"),
     "C06": ("exploration", "bex", "exhaustive differential exploration of dataset layouts and position fillings (batch vs extracted single spectrum)",
             "Every layout of 0-3 non-spectral dimensions from {time, site, lat, lon, part} in every order with sizes in {1,2,3}, filled from "
             "a menu of 30 pairwise distinct spectra with per-position wind/depth; for ~45 operations the batch result at every position "
-            "must equal the result on the extracted single spectrum, replacing one spectrum must leave all other positions bitwise "
-            "unchanged, all 900 ordered pairs of menu spectra on a 2-position layout, and Dataset accessor == efth accessor.",
+            "must equal the result on the extracted single spectrum (with all-distinct wind/depth fields and with fields in which positions "
+            "share wind or depth), replacing one spectrum must leave all other positions bitwise unchanged, all 900 ordered pairs of menu spectra on a 2-position layout, and Dataset accessor == efth accessor.",
             "Quick covers all 0/1/2-dim layouts and every 4th 3-dim layout, and 12 operations for the ordered pairs. gamma/alpha/fp are "
             "compared at 2e-6 (float32-derived). Partitioning an already partitioned layout is out of domain.",
             "3 C06"),
